@@ -188,11 +188,18 @@ def is_bool_term(t):
     return t.ty == "bool"
 
 
+GAMMA_HOOK = [None]     # installed by linear.py: algebraic lemmas that need linear forms
+
+
 def gamma(c, a, b):
     if c.k == "const":
         return a if c.a[0] else b
     if a == b:
         return a
+    if GAMMA_HOOK[0] is not None and c.k == "un" and c.a[0] == "bool":
+        r = GAMMA_HOOK[0](c, a, b)
+        if r is not None:
+            return r
     if c.k == "un" and c.a[0] == "not":
         return gamma(c.a[1], b, a)
     if a.k == "bcat" and b.k == "bcat":
